@@ -167,7 +167,7 @@ def plan(tier):
 
 
 def shards(tier):
-    return layers.shards(plan(tier), ('order', 'args', 'sibs'))
+    return layers.shards(plan(tier), ('order', 'args', 'sibs', 'long'))
 
 
 def prepare(tier):
@@ -205,7 +205,7 @@ SIGNATURES = {}
 
 def coverage(tier, total):
     return {
-        'rule': 'every L_wf document of: %s, of the order, argument and sibling (4-8 siblings) layers; every node as search root; every name occurring in the document, 2 absent '
+        'rule': 'every L_wf document of: %s, of the order, argument and sibling (4-8 siblings) layers and six long documents; every node as search root; every name occurring in the document, 2 absent '
                 'names, name pairs as list queries, every command text containing a group and every \\begin{name}[args] as '
                 'full-expression queries; find_all compared as a multiset with the generator nodes below the root; find, '
                 'count, attribute access compared with find_all' % ', '.join('%s <= %d nodes' % p for p in layers.PLAN[plan(tier)]),
